@@ -145,7 +145,22 @@ func eq(a, b string) string {
 	if a == b {
 		return "true"
 	}
+	if isDigits(a) && isDigits(b) {
+		return "false"
+	}
 	return app("=", a, b)
+}
+
+func isDigits(s string) bool {
+	if s == "" {
+		return false
+	}
+	for _, c := range s {
+		if c < '0' || c > '9' {
+			return false
+		}
+	}
+	return true
 }
 
 func ite(c, a, b string) string {
